@@ -620,7 +620,18 @@ func genValidSML(r *rand.Rand) string {
 }
 
 // genSML returns a text and the name of its generator: valid, or one grammar-directed mutation of a valid text.
+// genSML: a generated text, sometimes behind leading blank lines / white space (positions on later lines must still add up
+// when the very first byte of the input is a newline)
 func genSML(r *rand.Rand, maxLen int) (string, string) {
+	t, class := genSML0(r, maxLen)
+	if r.Intn(5) == 0 {
+		lead := []string{"\n", "\n\n", " \n", "\r\n", "\t", "\n \n\t"}[r.Intn(6)]
+		return lead + t, class + "+lead"
+	}
+	return t, class
+}
+
+func genSML0(r *rand.Rand, maxLen int) (string, string) {
 	t := genValidSML(r)
 	if len(t) > maxLen {
 		t = t[:maxLen]
